@@ -198,6 +198,18 @@ def check_case(case):
             if not np.array_equal(ph_in, phase):
                 viols.append(('input-modified', '%s: the phase array was changed' % desc))
             got = np.asarray(got)[:, 0]
+            if mask is not None and n <= 5 and rg:
+                # the deprecated alias is the same function: same arguments, same answer
+                try:
+                    import warnings
+                    from emd.cycles import get_cycle_inds
+                    with warnings.catch_warnings():
+                        warnings.simplefilter('ignore')
+                        al_ = np.asarray(get_cycle_inds(phase.copy(), return_good=rg, mask=mask.copy(), phase_step=STEP, phase_edge=edge))[:, 0]
+                    if not np.array_equal(al_, got):
+                        viols.append(('alias-differs', '%s mask=%s: get_cycle_inds gives %s, get_cycle_vector %s' % (desc, mask.astype(int).tolist(), al_.tolist(), got.tolist())))
+                except Exception as e:
+                    viols.append(('raise:alias:%s' % type(e).__name__, '%s: get_cycle_inds raised %r' % (desc, e)))
             keep = []
             for (a, b), g in zip(segs, good):
                 ok = (g or not rg) and (mask is None or bool(np.all(mask[a:b])))
